@@ -12,6 +12,7 @@ import (
 	"context"
 	"encoding/json"
 	"fmt"
+	"log/slog"
 	"net/http"
 	"net/http/httptest"
 	"net/netip"
@@ -303,13 +304,23 @@ func vc12DrawWorld(t *rapid.T) (w *vc12World) {
 	return w
 }
 
+// vc12DrawHashHosts draws a hash list as it is served: a multiset of names,
+// each one to three times, in a drawn order.
 func vc12DrawHashHosts(t *rapid.T) (hosts []string) {
 	n := rapid.IntRange(0, 3).Draw(t, "nhash")
 	for range n {
 		h := rapid.SampledFrom(vc12Hosts).Draw(t, "hhost")
-		if !slices.Contains(hosts, h) {
+		if slices.Contains(hosts, h) {
+			continue
+		}
+
+		for range rapid.IntRange(1, 3).Draw(t, "copies") {
 			hosts = append(hosts, h)
 		}
+	}
+
+	if len(hosts) > 1 {
+		hosts = rapid.Permutation(hosts).Draw(t, "order")
 	}
 
 	return hosts
@@ -520,6 +531,9 @@ type vc12SideConf struct {
 	HPFile     [3]bool   `json:"hp_file"`
 	HPFilePath [3]string `json:"-"`
 
+	// BaseLogger, if not nil, is the base logger of the cache-enabled storage.
+	BaseLogger *slog.Logger `json:"-"`
+
 	// CacheCount is the size of every LRU of the cache-enabled side; the small
 	// ones make evictions happen inside a history.
 	CacheCount int `json:"cache_count"`
@@ -600,8 +614,13 @@ func vc12NewSide(srv *vc12Srv, dir string, conf *vc12SideConf, cached bool) (sd 
 		}
 	}
 
+	baseLogger := slogutil.NewDiscardLogger()
+	if cached && conf.BaseLogger != nil {
+		baseLogger = conf.BaseLogger
+	}
+
 	sd.strg, err = filterstorage.New(&filterstorage.Config{
-		BaseLogger: slogutil.NewDiscardLogger(),
+		BaseLogger: baseLogger,
 		Logger:     slogutil.NewDiscardLogger(),
 		BlockedServices: &filterstorage.ConfigBlockedServices{
 			IndexURL:            srv.url("/svc"),
